@@ -30,15 +30,16 @@ def build(repo):
     log = []
     f = src.fn(FILE, "process_standard_jump_request", "impl Program")
     body = f["body"]
-    p = Pat("let callback_state = request . callback_state . clone ( ) ;")
+    p = Pat("let file = self . get_file ( path_ref ) $$rest ;")
     at = None
     for i in range(len(body)):
-        if p.match_at(body, i):
-            at = i; break
+        r = p.match_at(body, i)
+        if r:
+            at = r[0]; break
     if at is None:
-        raise Undecided(f"{FILE}: `let callback_state = request.callback_state.clone();` not found in process_standard_jump_request")
+        raise Undecided(f"{FILE}: `let file = self.get_file(path_ref)..;` not found in process_standard_jump_request")
     frag = body[at:]
-    log.append(("R0", "process_standard_jump_request", "its tail from `let callback_state = ..` on", "fragment: the label parsing and file lookup in front of it produce `file`, `label`, `path` (parameters)"))
+    log.append(("R0", "process_standard_jump_request", "its tail after `let file = self.get_file(path_ref)..;`", "fragment: the label parsing and file lookup in front of it produce `file`, `label`, `path` (parameters)"))
     b = translate(frag, [
         Rule("R1", "request . callback_state . clone ( )", "clone_caps ( & request . callback_state )", why="Option<VariableMapping>::clone"),
         Rule("R6", "file . run_function ( $$a )", "run_function ( & file , label , request , callback_state )", count=1, why="the callee (target function with its arguments, stack, captured variables; nested requests come back through process_jump_request): abstract"),
